@@ -1222,14 +1222,84 @@ func runC07(cfg *runCfg) error {
 			stuckScripts++
 		}
 	}
+	// ---- the connection ends while requests are pending: every (stage, way) cell ----
+	endRounds := 2
+	if cfg.tier != "quick" {
+		endRounds = 20
+	}
+	var ends []string
+	for k := 0; k < endRounds && stuckScripts < 3; k++ {
+		for st := 0; st < 5 && stuckScripts < 3; st++ {
+			for way := 0; way < 4 && stuckScripts < 3; way++ {
+				res, err := c07EndScript(rng, st, way)
+				if err != nil {
+					return err
+				}
+				ends = append(ends, res.coq)
+				m.Families["ends"] = append(m.Families["ends"], res.desc)
+				for _, v := range res.impl {
+					m.ImplViolations = append(m.ImplViolations, map[string]interface{}{"ends_script": len(ends) - 1, "observation": v, "case": res.desc})
+				}
+				if res.stuck || len(res.impl) > 0 {
+					stuckScripts++
+				}
+			}
+		}
+	}
+	// ---- one request stays pending while many others come and go ----
+	sizes2 := []int{1, 255, 256, 1023, 1024, 1025}
+	if cfg.tier != "quick" {
+		sizes2 = []int{1, 255, 256, 1023, 1024, 1025, 4096, 65533}
+	}
+	var longs []string
+	longReqs := 0
+	for st := 0; st < 5 && stuckScripts < 3; st++ {
+		for _, n := range sizes2 {
+			if stuckScripts >= 3 {
+				break
+			}
+			if n > 60000 && st != 0 && st != 3 {
+				continue // the identifier space once round: QoS 1 and Subscribe only (cost)
+			}
+			if cfg.tier == "quick" && n > 300 && n != 1024+st%2 && st != 0 {
+				continue // quick: every size for QoS 1, one window-sized run for the other stages
+			}
+			res, err := c07LongScript(rng, st, n, rng.Intn(3) > 0)
+			if err != nil {
+				return err
+			}
+			longs = append(longs, res.coq)
+			longReqs += res.nB
+			m.Families["long"] = append(m.Families["long"], res.desc)
+			for _, v := range res.impl {
+				m.ImplViolations = append(m.ImplViolations, map[string]interface{}{"long_script": len(longs) - 1, "observation": v, "case": res.desc})
+			}
+			if res.stuck || len(res.impl) > 0 {
+				stuckScripts++
+			}
+		}
+	}
+	cf.def("ends", "list c07_case", cList(ends))
+	for i, lc := range longs {
+		cf.def(fmt.Sprintf("long_%d", i), "c07_long_case", lc)
+	}
+	ln := make([]string, len(longs))
+	for i := range longs {
+		ln[i] = fmt.Sprintf("long_%d", i)
+	}
+	cf.def("longs", "list c07_long_case", cListInline(ln))
 	cf.def("zero", "list c07_case", cList(zero))
 	cf.def("shared", "list c07_case", cList(shared))
 	cf.result("V_scripts", "c07_violations scripts")
 	cf.result("M_scripts", "c07_mismatches scripts")
+	cf.result("V_ends", "c07_end_violations ends")
+	cf.result("M_ends", "c07_end_mismatches ends")
+	cf.result("V_long", "c07_long_violations longs")
+	cf.result("M_long", "c07_long_mismatches longs")
 	cf.result("V_zero", "c07_violations zero")
 	cf.result("M_zero", "c07_mismatches zero")
 	cf.result("M_shared", "c07_shared_mismatches shared")
-	m.Evaluations = len(cases) + len(shared) + len(zero)
+	m.Evaluations = len(cases) + len(shared) + len(zero) + len(ends) + len(longs)
 	m.DistinctNontrivial = nontrivial
 	m.Rule = "one evaluation = one script on a real BaseClient: 1-8 concurrent blocking calls (Publish QoS1/QoS2, Subscribe 1-4 filters, Unsubscribe; publish identifiers often equal to identifiers other kinds of requests hold), possibly started in two waves, answered by a generated acknowledgement sequence (genuine in random order, wrong kind with an identifier in use, unused identifier, duplicate, unsolicited, SUBACK with wrong code count / 0x80), each acknowledgement confirmed as processed by a QoS0 marker; non-trivial = distinct history with >=2 callers, >=1 hostile acknowledgement and >=1 completed call"
 	keys := make([]string, 0, len(kinds))
@@ -1250,6 +1320,9 @@ func runC07(cfg *runCfg) error {
 	m.Distribution["late_acknowledgements_for_calls_that_gave_up"] = lateAcks
 	m.Distribution["shared_identifier_scripts_outside_hypothesis"] = len(shared)
 	m.Distribution["zero_delay_scripts"] = len(zero)
+	m.Distribution["connection_ends_while_pending_scripts"] = len(ends)
+	m.Distribution["long_lived_pending_request_scripts"] = len(longs)
+	m.Distribution["long_lived_further_requests_total"] = longReqs
 	if err := cf.write(cfg.outDir); err != nil {
 		return err
 	}
